@@ -41,6 +41,8 @@ pub fn str_to_fr(input: &str, radix: u32) -> Result<Fr> {
 
 #[inline(always)]
 pub fn bytes_le_to_fr(input: &[u8]) -> (Fr, usize) {
+    #[cfg(zerokit_verif)]
+    utils::verif::yield_point("bytes_le_to_fr");
     let el_size = fr_byte_size();
     (
         Fr::from(BigUint::from_bytes_le(&input[0..el_size])),
@@ -50,6 +52,8 @@ pub fn bytes_le_to_fr(input: &[u8]) -> (Fr, usize) {
 
 #[inline(always)]
 pub fn fr_to_bytes_le(input: &Fr) -> Vec<u8> {
+    #[cfg(zerokit_verif)]
+    utils::verif::yield_point("fr_to_bytes_le");
     let input_biguint: BigUint = (*input).into();
     let mut res = input_biguint.to_bytes_le();
     //BigUint conversion ignores most significant zero bytes. We restore them otherwise serialization will fail (length % 8 != 0)
